@@ -221,6 +221,11 @@ def discard (m : Machine σ β ρ) (n : Node σ) (b : β) : Node σ :=
     that `exec` ignores: it is not an input of `step` -/
 def execVia (m : Machine σ β ρ) (_path : List String) (n : Node σ) (b : β) : Node σ × ρ := m.exec n b
 
+/-- the NODE-LOCAL CONFIGURATION (app.toml, config.toml, command line flags, home directory: JSON-RPC gas cap, tracer,
+    minimum gas prices, API toggles, caches, pruning, invariant-check period …) is an explicit parameter that `exec`
+    ignores: it is not an input of `step` -/
+def execWith (m : Machine σ β ρ) (_config : List (String × String)) (n : Node σ) (b : β) : Node σ × ρ := m.exec n b
+
 /-- a fresh process opened on the committed database of `n` -/
 def forkOf (n : Node σ) : Node σ := { committed := n.committed }
 end Machine
@@ -274,7 +279,7 @@ def classes : List String :=
    "abigen-binding-unreachable", "hasher-pool", "vendored-ethash-pure-computation", "vendored-ethash-progress-logging",
    "vendored-ethash-mining-unreachable", "vendored-ethash-dataset-unreachable", "vendored-ethash-disk-cache-disabled",
    "vendored-ethash-future-cache", "vendored-ethash-sealer-loop-idle", "sorted-before-use", "order-independent-body", "startup-wiring",
-   "constant-table", "deterministic-memo", "vendored-ethash-per-call-instance", "read-only-lookup", "deterministic-error-text"]
+   "constant-table", "deterministic-memo", "vendored-ethash-per-call-instance", "read-only-lookup", "deterministic-error-text", "config-non-consensus", "operator-override-by-design"]
 
 /-- theorems of `Proofs/C14.lean` that an inventoried site may name as its discharge -/
 def theoremNames : List String :=
